@@ -203,7 +203,7 @@ def run(light=False):
         r = replay.explore(cs, wd, dump=True)
         graph = replay.parse_dump(r.out)
         trace = os.path.join(base, "trace.ndjson")
-        rec = Recorder(trace, len(cs["hosts"]))
+        rec = Recorder(trace, len(cs["hosts"]), cs=cs)
         replay.replay(cs, scn, graph, rec, max_states=8, foreign=False)
         rec.close()
         evs = [json.loads(l) for l in open(trace)]
